@@ -59,7 +59,9 @@ def tasks(tier='quick'):
     for name in sorted(SERVERS) + sorted(CLIENTS):
         _res, sites, _n = baseline(name)
         for kw in ({'segment': 1}, {'segment': 7}, {'segment': 13}, {'coalesce': True}, {'coalesce': True, 'eager': True}, {'eager': True}, {'eager': True, 'segment': 16},
-                   {'eager': True, 'segment': 1}):
+                   {'eager': True, 'segment': 1},
+                   # the same messages framed with more random padding than the minimum (RFC 4253: 4..255 bytes)
+                   {'pad_extra': 16}, {'pad_extra': 120}, {'pad_extra': 128}, {'pad_extra': 200}, {'pad_extra': 255}, {'pad_extra': 255, 'segment': 13}, {'pad_extra': 136, 'coalesce': True, 'eager': True}):
             if name == 'ssh1' and kw.get('eager'):
                 continue        # an SSH-1 server has no KEXINIT to send early
             out.append((name, None, None, tuple(sorted(kw.items()))))
